@@ -651,6 +651,8 @@ class StructFacade:
                 out.append(s_bytes(part))
             elif code in "BHILQ":
                 out.append(s_int_from_bytes(part, order))
+            elif code in "bhilq":
+                out.append(s_int_from_bytes(part, order, signed=True))
             else:
                 raise OutOfReach("struct code %r with symbolic octets" % code)
         return tuple(out)
